@@ -833,7 +833,17 @@ func (h *handler) handleClose(ctx context.Context) {
 	case <-ctx.Done():
 		verifhook.At("router.life.hc.ctx", h.name)
 		verifhook.At("router.handler.handleclose.ctx_done", h.name)
-		// we are closing subscriber just when entire router is closed
+		// we are closing subscriber just when entire router is closed:
+		// when the router is closing, Run cancels ctx as well and select may pick this case
+		select {
+		case <-h.routersCloseCh:
+			h.logger.Debug("Waiting for subscriber to close", nil)
+			if err := h.subscriber.Close(); err != nil {
+				h.logger.Error("Failed to close subscriber", err, nil)
+			}
+			h.logger.Debug("Subscriber closed", nil)
+		default:
+		}
 	}
 	verifhook.At("router.handler.handleclose.stop", h.name)
 	h.stopFn()
